@@ -1,7 +1,7 @@
 (* C17  Semantic tokens: deltas reconstruct the full result; a range answer is the full
    answer restricted to the lines.  (The geometry of individual tokens depends on the lexer;
    see the level note.) *)
-From HL Require Import Lib.Bytes Model.Semantic Proofs.SemanticProofs.
+From HL Require Import Lib.Bytes Model.Semantic Model.SemTokens Proofs.SemanticProofs Proofs.SemTokensProofs.
 Open Scope N_scope.
 
 (* For every tokenizer, every history of opens, edits, closes, full / range / delta requests
@@ -32,6 +32,21 @@ Theorem C17_range : forall l sl el, sorted_from 0 0 l ->
   decode (encode (filter_range l sl el)) = filter_range (decode (encode l)) sl el.
 Proof. exact range_is_filtered_full. Qed.
 Print Assumptions C17_range.
+
+(* The tokenizer itself (tokenizeForSemantics with its tag extraction, transcribed on top of the lexer
+   model and tied to the implementation's full answer on every content of every run): for EVERY byte
+   string, every token it produces has a type of the 13-entry legend and a non-zero length. *)
+Theorem C17_every_token_in_legend_and_nonempty : forall text,
+  Forall (fun t => t_type t < 13 /\ 0 < t_len t) (sem_tokens text).
+Proof. exact sem_tokens_fine. Qed.
+Print Assumptions C17_every_token_in_legend_and_nonempty.
+
+(* non-vacuity: a header with a comment whose tag name is Cyrillic; the tag token has the UTF-16
+   length of the name plus the colon (4), the value token starts right behind it *)
+Example C17_tokenizer_sample :
+  encode (sem_tokens (hx "323032342d30312d3031207820203b20d182d0b5d0b33ad0b70a")) =
+  [0;0;10;3;0; 0;11;1;2;0; 0;5;4;5;0; 0;4;1;12;0].
+Proof. vm_compute. reflexivity. Qed.
 
 (* non-vacuity *)
 Example C17_example :
